@@ -360,6 +360,11 @@ fn c09_triple(sc: &Scenario, pre: &World, u: &EvalOut, iplan: &EvalPlan, salt: u
         return;
     }
     *rep.probes.entry("c09_triples_checked").or_insert(0) += 1;
+    if std::env::var("VERIF_TRACE_TRIPLE").is_ok() {
+        crate::shrink::trace_eval("U", u);
+        crate::shrink::trace_eval(&format!("I {:?}", iplan), &i);
+        crate::shrink::trace_eval("S", &s);
+    }
     let su = started_ids(u);
     let ss = started_ids(&s);
     for x in ss.difference(&su) {
